@@ -50,10 +50,10 @@ const c11EnumOps = 15
 const c11SweepOp = 15
 
 var (
-	c11Shapes = []string{"single", "alternative", "body+attachment", "body+embed", "attachment-only", "preformatted-and-many-generic-headers", "smime-single", "smime+attachment", "two-attachments-only", "body-writer+file-writer (switchable source fault)", "caller-fixed boundary: alternative+attachment (nested multiparts)", "caller-fixed boundary: S/MIME alternative+attachment", "single body with a transfer encoding outside go-mail's constants (binary)", "PGP/MIME encrypted (WithPGPType, two caller-supplied parts)", "PGP/MIME signed (SetPGPType, body + detached signature part)"}
+	c11Shapes = []string{"single", "alternative", "body+attachment", "body+embed", "attachment-only", "preformatted-and-many-generic-headers", "smime-single", "smime+attachment", "two-attachments-only", "body-writer+file-writer (switchable source fault)", "caller-fixed boundary: alternative+attachment (nested multiparts)", "caller-fixed boundary: S/MIME alternative+attachment", "single body with a transfer encoding outside go-mail's constants (binary)", "PGP/MIME encrypted (WithPGPType, two caller-supplied parts)", "PGP/MIME signed (SetPGPType, body + detached signature part)", "two middlewares (subject tag, added header)"}
 	c11Srcs   = []string{"reader", "readseeker", "file", "fs.FS", "text-template", "reader(*bytes.Reader, partially consumed)", "reader(*strings.Reader)", "readseeker(partially consumed)", "reader(*os.File)", "embed.FS", "fs.FS(reads fail while the source fault is on)", "readseeker(reads fail while the source fault is on)"}
 	c11Ops    = []string{"WriteTo", "Write", "NewReader", "UpdateReader", "WriteToFile", "WriteToTempFile", "Send", "WriteTo(sink fails at 0)", "WriteTo(sink fails mid-way)",
-		"WriteTo(while the content source fails)", "NewReader(while the content source fails)", "UpdateReader(while the content source fails)", "Send(while the content source fails)", "NewReader(only 64 bytes read)", "NewReader(copied into a failing sink)", "WriteTo(sink fails at byte K)"}
+		"WriteTo(while the content source fails)", "NewReader(while the content source fails)", "UpdateReader(while the content source fails)", "Send(while the content source fails)", "NewReader(only 64 bytes read)", "NewReader(copied into a failing sink)", "WriteTo(sink fails at byte K)", "WriteToSkipMiddleware(the first middleware)", "WriteToSkipMiddleware(the second middleware)"}
 )
 
 func c11HasFile(shape int) bool {
@@ -67,6 +67,23 @@ func c11MapMatters(shape int) bool {
 var c11EmbedFS embed.FS
 
 var c11FileContent = []byte("file content line one\nline two with bare LF\r\nbinary: \x00\x01\xfe\xff = . end\n")
+
+// the two middlewares of shape 15: both idempotent, both visible in the output
+type c11MwTag struct{}
+
+func (c11MwTag) Type() mail.MiddlewareType { return "c11-subject-tag" }
+func (c11MwTag) Handle(m *mail.Msg) *mail.Msg {
+	m.Subject("[tagged] repeatability")
+	return m
+}
+
+type c11MwHdr struct{}
+
+func (c11MwHdr) Type() mail.MiddlewareType { return "c11-added-header" }
+func (c11MwHdr) Handle(m *mail.Msg) *mail.Msg {
+	m.SetGenHeader(mail.Header("X-Mw-Applied"), "yes")
+	return m
+}
 
 // c11Fault is the switchable source fault of shape 9 and of the two fault-capable file sources.
 type c11Fault struct{ on bool }
@@ -131,7 +148,11 @@ func c11TmpDir() string {
 }
 
 func c11Build(cfg c11Cfg, dir string) (*mail.Msg, error) {
-	m := mail.NewMsg()
+	var mo []mail.MsgOption
+	if cfg.Shape == 15 {
+		mo = append(mo, mail.WithMiddleware(c11MwTag{}), mail.WithMiddleware(c11MwHdr{}))
+	}
+	m := mail.NewMsg(mo...)
 	_ = m.From("sender@snd.example")
 	_ = m.To("rcpt@rcp.example")
 	m.Subject("repeatability")
@@ -182,6 +203,11 @@ func c11Build(cfg c11Cfg, dir string) (*mail.Msg, error) {
 			n, err := w.Write(c11FileContent)
 			return int64(n), err
 		}}})
+	}
+	if shape == 15 {
+		// fixed Date / Message-ID: the rendering of a fresh twin of this message is then the absolute reference
+		m.SetDateWithValue(hx.T0)
+		m.SetMessageIDWithValue("fixed.c11@harness.example")
 	}
 	if shape == 5 {
 		m.SetGenHeaderPreformatted(mail.Header("X-Preformatted-One"), "first value")
@@ -362,6 +388,15 @@ func c11Exec(r *vf.Run, k c11Case, dir string) []finding {
 	var ref []byte
 	refOp := ""
 	var rd *mail.Reader
+	if k.Cfg.Shape == 15 {
+		// absolute reference: what a fresh twin of the message (never rendered without a middleware) writes
+		if twin, terr := c11Build(k.Cfg, dir); terr == nil {
+			var b bytes.Buffer
+			if _, werr := twin.WriteTo(&b); werr == nil {
+				ref, refOp = b.Bytes(), "WriteTo of a fresh message"
+			}
+		}
+	}
 	cfgCls := c11Shapes[k.Cfg.Shape]
 	if c11HasFile(k.Cfg.Shape) {
 		cfgCls += "/src=" + c11Srcs[k.Cfg.Src] + "/fenc=" + []string{"b64", "8bit", "qp"}[k.Cfg.FEnc]
@@ -487,6 +522,12 @@ func c11Exec(r *vf.Run, k c11Case, dir string) []finding {
 					}
 				case c11SweepOp:
 					_, _ = m.WriteTo(&faultSink{at: k.SinkAt, style: k.SinkStyle})
+					ok = false
+				case 16, 17:
+					// a rendering without one of the middlewares: its output legitimately differs and is not compared, but
+					// it must not change what the renderings after it produce
+					var b bytes.Buffer
+					_, _ = m.WriteToSkipMiddleware(&b, map[int]mail.MiddlewareType{16: c11MwTag{}.Type(), 17: c11MwHdr{}.Type()}[op])
 					ok = false
 				case 13:
 					// the caller peeks at the beginning and abandons the read
@@ -627,7 +668,7 @@ func init() {
 				for _, n := range c11Srcs {
 					r.Reached("reached/compared/src=" + n)
 				}
-				r.Reached("identical-after-failed-render")
+				r.Reached("identical-after-failed-render", "identical-around-a-skipped-middleware")
 				return
 			}
 			dir := c11TmpDir()
@@ -810,6 +851,55 @@ func init() {
 								for _, x := range c11Exec(r, k, dir) {
 									if x.key == f.key {
 										return f.key + "/after-failed-render"
+									}
+								}
+								return ""
+							})
+						}
+					}
+				}
+			}
+			// the middleware shape with the two WriteToSkipMiddleware operations: all sequences of length 2..3 (thorough ..4)
+			// over {WriteTo, NewReader, UpdateReader, WriteToFile, Send, skip first, skip second} with two comparable renderings
+			{
+				alpha := []int{0, 2, 3, 4, 6, 16, 17}
+				for L := 2; L <= maxLen; L++ {
+					n := 1
+					for i := 0; i < L; i++ {
+						n *= len(alpha)
+					}
+					for code := 0; code < n; code++ {
+						ops, c, useful, skips := make([]int, L), code, 0, 0
+						for i := 0; i < L; i++ {
+							ops[i] = alpha[c%len(alpha)]
+							c /= len(alpha)
+							if ops[i] < 7 {
+								useful++
+							} else {
+								skips++
+							}
+						}
+						if useful < 2 || skips == 0 {
+							continue
+						}
+						idx++
+						if !r.Mine(idx) {
+							continue
+						}
+						k := c11Case{Cfg: c11Cfg{Shape: 15}, Ops: ops, Ks: make([]int, L)}
+						fs := c11Exec(r, k, dir)
+						r.Eval(vf.Hash(fmt.Sprintf("%+v", k)), true)
+						r.TraceValidated()
+						if len(fs) == 0 {
+							r.Outcome("identical-around-a-skipped-middleware")
+						}
+						for _, f := range fs {
+							f := f
+							r.Outcome(strings.SplitN(f.key, "/", 2)[0])
+							r.Violation(f.key, f.what, k, func() string {
+								for _, x := range c11Exec(r, k, dir) {
+									if x.key == f.key {
+										return f.key
 									}
 								}
 								return ""
